@@ -312,6 +312,49 @@ func probeOversizeSend(v primitive.ProtocolVersion, n int) *result {
 	return res
 }
 
+// A peer that spells the compression name in lower case ("lz4", as the specification and the drivers do): observation
+// only - whether the real server answers STARTUP and one OPTIONS request.
+func probeLowercase(v primitive.ProtocolVersion) *result {
+	t0 := time.Now()
+	res := &result{Kind: "session", ID: fmt.Sprintf("lowercase-compression-v%d", v), Mode: "lowercase", Version: int(v), Compression: "lz4",
+		Script: map[string]interface{}{"startup_compression": "lz4"}, Obs: map[string]interface{}{}, Failures: []failure{}}
+	defer func() { res.Millis = time.Since(t0).Milliseconds() }()
+	ctx, cancel := context.WithCancel(context.Background())
+	defer cancel()
+	server, addr, err := startServer(ctx, false)
+	if err != nil {
+		res.fail("harness", "server start: %v", err)
+		return res
+	}
+	defer server.Close()
+	conn, err := net.DialTimeout("tcp", addr, 10*time.Second)
+	if err != nil {
+		res.fail("harness", "dial: %v", err)
+		return res
+	}
+	defer conn.Close()
+	sconn, err := server.AcceptAny()
+	if err != nil {
+		res.fail("harness", "accept: %v", err)
+		return res
+	}
+	_ = serveEcho(sconn, true)
+	p := newRawPeer(conn, v, primitive.CompressionLz4, 0)
+	startup := message.NewStartup()
+	startup.Options["COMPRESSION"] = "lz4"
+	if err := p.writeFrame(frame.NewFrame(v, 1, startup)); err != nil {
+		res.fail("harness", "write STARTUP: %v", err)
+		return res
+	}
+	_ = conn.SetReadDeadline(time.Now().Add(1500 * time.Millisecond))
+	f, err := p.frames.DecodeFrame(p.rd)
+	res.Obs["startup_answered"] = err == nil && f != nil
+	if err != nil {
+		res.Obs["error"] = err.Error()
+	}
+	return res
+}
+
 // =================================================================================================== raw client
 type rawScript struct {
 	Specs      []frameSpec `json:"specs"`
